@@ -18,7 +18,7 @@ RULE = ('cases: random/boundary graphs n<=9 x delay/duration tables drawn from v
 ASSUMPTIONS = ['user functions are deterministic tables (so the first-passage solution is unique up to ties in the infector)']
 BUDGET = {'quick': 150, 'thorough': 1200}
 CHUNK = {'quick': 40, 'thorough': 200}
-REQUIRED = ['fast_SIR_weighted_path_runs', 'sim_nodes_checked', 'infectors_checked', 'array_rows_checked', 'builder_arcs_checked', 'markov_builder_draws_checked',
+REQUIRED = ['builder_runs_on_multigraphs_with_parallel_edges', 'fast_SIR_weighted_path_runs', 'sim_nodes_checked', 'infectors_checked', 'array_rows_checked', 'builder_arcs_checked', 'markov_builder_draws_checked',
             'get_infected_checked', 'tie_cases', 'one_shot_recovered_iterables']
 VALUE_SETS = {'small_int': [0, 1, 2], 'ties_inf': [0.5, 1, 1, 2, float('inf')], 'zeros': [0, 0, 1], 'cont': None, 'dyadic': [0.25, 0.5, 0.75, 1.5],
               # values one unit in the last place apart: 0.1+0.2 > 0.3, 0.2+0.4 > 0.6, 0.7+0.1 < 0.8 - "delay <= duration" is an exact comparison
@@ -50,6 +50,9 @@ def gen_cases(tier, seed):
         if r.random() < 0.5:
             desc = gen.shuffle_desc(r, desc)
         nn = desc['n']
+        if kinds[k % len(kinds)] == 'sim' and r.random() < 0.15:
+            desc = dict(desc)
+            desc['directed'] = True        # contacts with a direction
         vs = r.choice(list(VALUE_SETS))
         vals = VALUE_SETS[vs]
 
@@ -150,6 +153,8 @@ def run_sim(case, res):
         viol(res, 'fast_nonMarkov_SIR|%s|exception:%s' % (mode, simcase.exc_key(e)), {'err': repr(e)})
         return
     bump(res, 'rule_extra_argument_runs')
+    if G.is_directed():
+        bump(res, 'sim_runs_on_directed_networks')
     if argbad:
         viol(res, 'fast_nonMarkov_SIR|%s|rule_receives_its_own_extra_arguments' % mode, {'rule': argbad[0][0], 'received': repr(argbad[0][1])})
         return
@@ -224,8 +229,26 @@ def run_builder(case, res):
     nbrs = {u: list(G.neighbors(u)) for u in nodes}
     arcs = perc.kept_arcs(nodes, nbrs, dur, delay)
     weights = case['full']
+    asked = {}
+
+    def ttf(u, v, a):
+        # one answer per contact: a stochastic rule would answer differently when asked again, so the second answer for the same
+        # ordered pair is 0.0 ("transmits at once"), which would add the arc
+        asked[(u, v)] = asked.get((u, v), 0) + 1
+        return delay[(u, v)] if asked[(u, v)] == 1 else 0.0
+    if case['seed'] % 3 == 0 and G.number_of_edges() and not G.is_directed():
+        # the raw nx.configuration_model MultiGraph: several parallel edges are still one neighbour
+        M = nx.MultiGraph()
+        M.add_nodes_from(G.nodes(data=True))
+        M.add_edges_from(G.edges(data=True))
+        rr = random.Random(case['seed'] + 3)
+        for e in rr.sample(list(G.edges()), min(G.number_of_edges(), rr.randint(1, 3))):
+            for _ in range(rr.randint(1, 3)):
+                M.add_edge(*e)
+        G = M
+        bump(res, 'builder_runs_on_multigraphs_with_parallel_edges')
     try:
-        H = EoN.nonMarkov_directed_percolate_network_with_timing(G, lambda u, v, a: delay[(u, v)], lambda u, b: dur[u], ('a',), ('b',), weights=weights)
+        H = EoN.nonMarkov_directed_percolate_network_with_timing(G, ttf, lambda u, b: dur[u], ('a',), ('b',), weights=weights)
     except Exception as e:
         viol(res, 'nonMarkov_directed_percolate_network_with_timing|exception:%s' % simcase.exc_key(e), {'err': repr(e)})
         return
